@@ -207,6 +207,24 @@ def gen_scenario(seed, profile="general", n_ops=(3, 9)):
             ops.append({"op": "infosf", "at": "", "file": rnd.choice(files)})
         else:
             ops.append({"op": "flatten", "at": ""})
+    # spell some root paths / -sf paths in a non-canonical way (trailing slash, dot segments, relative invocation)
+    for o in ops:
+        if o["op"] in ("create", "verify", "verifydh", "diff", "info", "flatten") and rnd.random() < 0.2:
+            o["spell"] = rnd.choice(["slash", "dot", "dotdot", "relative", "cwd"])
+        if o["op"] == "create" and o.get("sf") and rnd.random() < 0.4:
+            raws = []
+            for x in o["sf"]:
+                k = rnd.random()
+                if k < 0.3:
+                    raws.append("./" + x)
+                elif k < 0.6 and "/" in x:
+                    d, b = x.rsplit("/", 1)
+                    raws.append(d + "/../" + d.split("/")[-1] + "/" + b)
+                elif k < 0.8:
+                    raws.append(x.replace("/", "//", 1))
+                else:
+                    raws.append(x)
+            o["sf_raw"] = raws
     # always end with the read-only commands on the root
     ops.append({"op": "verify", "at": ""})
     ops.append({"op": "diff", "at": ""})
